@@ -16,7 +16,9 @@
 #include <osmium/util/misc.hpp>
 
 #include <algorithm>
+#include <cerrno>
 #include <climits>
+#include <typeinfo>
 #include <ctime>
 #include <string>
 
@@ -577,6 +579,59 @@ static void part_ints(const Args& a) {
     benum::sample("ints: string_to_changeset_id('4294967295'), opl_parse_int<int64>('-9223372036854775808'), string_to_object_id(' 5')");
 }
 
+// --- history independence ------------------------------------------------------------------------
+// The conversions are pure functions of their argument. Every sequence of 2 (quick) | 3 (thorough) calls over an alphabet of
+// (function, string) pairs - with in-range values, values that overflow the C library's conversion (leaving errno == ERANGE),
+// malformed strings - must give, for its LAST call, the result that call gives when it is made first in a fresh process state
+// (errno = 0). State that leaks from one call into the next (errno, static buffers, caches) shows here and nowhere else.
+struct HCall { int fn; const char* s; };
+static std::string hist_result(const HCall& c) {
+    using namespace osmium;
+    try {
+        switch (c.fn) {
+            case 0: return "ok:" + std::to_string(string_to_object_id(c.s));
+            case 1: return "ok:" + std::to_string(string_to_object_version(c.s));
+            case 2: return "ok:" + std::to_string(string_to_changeset_id(c.s));
+            case 3: return "ok:" + std::to_string(string_to_uid(c.s));
+            case 4: { Location l; l.set_lon(c.s); return "ok:" + std::to_string(l.x()); }
+            case 5: return "ok:" + std::to_string(static_cast<uint32_t>(Timestamp{c.s}));
+            case 6: { const char* p = c.s; return "ok:" + std::to_string(io::detail::opl_parse_int<int64_t>(&p)); }
+            default: { Timestamp t{static_cast<uint32_t>(strtoul(c.s, nullptr, 10))}; return "ok:" + t.to_iso(); }
+        }
+    } catch (const std::exception& e) { return std::string("throws:") + typeid(e).name(); }
+}
+static const char* const HFN[] = {"string_to_object_id", "string_to_object_version", "string_to_changeset_id", "string_to_uid", "Location::set_lon", "Timestamp(string)", "opl_parse_int<int64>", "Timestamp::to_iso"};
+static void part_history(const Args& a) {
+    static const char* const strs[] = {"1", "17", "4294967294", "9223372036854775807", "9223372036854775808", "99999999999999999999999", "-5", "x", "1e400", "2015-01-01T00:00:00Z", "1.5"};
+    std::vector<HCall> alpha;
+    for (int f = 0; f < 8; ++f) for (const char* s : strs) alpha.push_back(HCall{f, s});
+    std::vector<std::string> alone;
+    for (const HCall& c : alpha) { errno = 0; alone.push_back(hist_result(c)); }
+    const size_t N = alpha.size();
+    const unsigned len = a.thorough ? 3 : 2;
+    const uint64_t total = benum::ipow(N, len);
+    uint64_t ev = 0; bool complete = true;
+    for (uint64_t r = a.shard; r < total; r += a.nshards) {
+        if ((r & 0xffff) == a.shard && a.expired()) { complete = false; break; }
+        uint64_t x = r; size_t idx[3];
+        for (unsigned p = 0; p < len; ++p) { idx[p] = x % N; x /= N; }
+        errno = 0;
+        for (unsigned p = 0; p + 1 < len; ++p) hist_result(alpha[idx[p]]);
+        const std::string got = hist_result(alpha[idx[len - 1]]);
+        ++ev;
+        if (got != alone[idx[len - 1]]) {
+            const HCall& last = alpha[idx[len - 1]]; const HCall& prev = alpha[idx[len - 2]];
+            std::string spec = "hist";
+            for (unsigned p = 0; p < len; ++p) spec += ":" + std::to_string(idx[p]);
+            V.report(std::string("history/result-depends-on-earlier-call/") + HFN[last.fn] + "/after-" + HFN[prev.fn],
+                     std::string(HFN[last.fn]) + "('" + last.s + "') gives " + alone[idx[len - 1]] + " when called first, but " + got + " after " + HFN[prev.fn] + "('" + prev.s + "')", spec);
+        }
+    }
+    C["evaluations"] += ev; C["distinct_nontrivial"] += ev; C["call_histories"] += ev;
+    benum::bound("call histories: every sequence of " + std::to_string(len) + " calls over " + std::to_string(N) + " (function, string) pairs, last result compared with the call alone", complete);
+    if (a.shard == 0) benum::sample("history: string_to_object_id('9223372036854775808') [throws, errno=ERANGE] then string_to_object_version('17') -> 17, as when called alone");
+}
+
 static void replay(const std::string& spec) {
     size_t c = spec.find(':');
     std::string kind = spec.substr(0, c), rest = spec.substr(c + 1);
@@ -586,6 +641,18 @@ static void replay(const std::string& spec) {
     else if (kind == "tsstr") check_ts_string(benum::unhex(rest));
     else if (kind == "int") { size_t d = rest.find(':'); ints_for(benum::unhex(rest.substr(d + 1))); }
     else if (kind == "outint") check_output_int(atoll(rest.c_str()));
+    else if (kind == "hist") {      // indexes into the call alphabet
+        static const char* const strs[] = {"1", "17", "4294967294", "9223372036854775807", "9223372036854775808", "99999999999999999999999", "-5", "x", "1e400", "2015-01-01T00:00:00Z", "1.5"};
+        std::vector<HCall> alpha;
+        for (int f = 0; f < 8; ++f) for (const char* s2 : strs) alpha.push_back(HCall{f, s2});
+        std::vector<size_t> idx; size_t p0 = 0;
+        while (p0 <= rest.size()) { size_t q = rest.find(':', p0); if (q == std::string::npos) q = rest.size(); idx.push_back(static_cast<size_t>(atoll(rest.substr(p0, q - p0).c_str()))); p0 = q + 1; }
+        errno = 0; const std::string alone = hist_result(alpha[idx.back()]);
+        errno = 0; for (size_t k = 0; k + 1 < idx.size(); ++k) hist_result(alpha[idx[k]]);
+        const std::string got = hist_result(alpha[idx.back()]);
+        const HCall& last = alpha[idx.back()]; const HCall& prev = alpha[idx[idx.size() - 2]];
+        if (got != alone) V.report(std::string("history/result-depends-on-earlier-call/") + HFN[last.fn] + "/after-" + HFN[prev.fn], "replayed: alone " + alone + ", in the history " + got, spec);
+    }
 }
 
 int main(int argc, char** argv) {
@@ -598,6 +665,7 @@ int main(int argc, char** argv) {
     else if (part == "grammar") part_grammar(a);
     else if (part == "tsstr") part_tsstr(a);
     else if (part == "ints") part_ints(a);
+    else if (part == "history") part_history(a);
     else { fprintf(stderr, "unknown part\n"); return 2; }
     C.emit();
     return 0;
